@@ -691,6 +691,10 @@ def run(ctx):
 
     # ---------------------------------------------------------------- 4. writer/reader agreement
     r4 = rep.rule('C11.4-writer-reader-agreement', 'R-SIBLING', 'cdb hash step and start value, pack/unpack byte order, key format ("!" prefix, lower-casing, NUL for exact keys) and the case of recorded break characters agree between qmail-newu/cdbmake and qmail-lspawn/cdb_seek')
+    # writer and reader lower-case keys with the same routine: its table
+    from rules import libtab as _lt
+    for inst_, v_ in sorted(_lt.case_lowerb_sites(db, rep, db.program('qmail-lspawn')).items()):
+        r4.check(v_[0], inst_, v_[1], v_[2], v_[3])
 
     def hash_steps(fn, hvar):
         steps = []
